@@ -591,6 +591,10 @@ func RunMapInitExpr(ctx *Task, expr *ast.MapLiteral) (any, ast.DType, *errchain.
 // }
 
 func RunIndexExprGet(ctx *Task, expr *ast.IndexExpr) (any, ast.DType, *errchain.PlError) {
+	if expr.Obj == nil {
+		return nil, ast.Invalid, NewRunError(ctx,
+			"index expression has no object", ast.NodeStartPos(ast.WrapIndexExpr(expr)))
+	}
 	key := expr.Obj.Name
 
 	varb, err := ctx.GetKey(key)
@@ -911,6 +915,10 @@ func RunAssignmentExpr(ctx *Task, expr *ast.AssignmentExpr) (any, ast.DType, *er
 				"unsupported op", expr.OpPos)
 		}
 	case ast.TypeIndexExpr:
+		if LHS.IndexExpr().Obj == nil {
+			return nil, ast.Invalid, NewRunError(ctx,
+				"index expression has no object", LHS.StartPos())
+		}
 		switch expr.Op {
 		case ast.EQ:
 			varb, err := ctx.GetKey(LHS.IndexExpr().Obj.Name)
